@@ -271,12 +271,19 @@ def _hash_err_equal(a, b, line):
     return pa[4:7] == pb[4:7] and pa[7:] == pb[7:]
 
 
+_SHORT_WRITER = re.compile(r' -([2-9]|[1-9]\d+)( ;|$)')
+
+
 def obs_equal(m, i, line=''):
     """model observation list vs implementation observation list (strings)"""
     if m is None or i is None:
         return False
     mt = m.split(' ') if m else []
     it = canon_impl(i).split(' ') if i else []
+    if _SHORT_WRITER.search(line):
+        # a writer that takes a few bytes per call sees more `write` calls than the logical writes the model counts
+        strip = lambda t: re.sub(r':\d+$', ':-', t) if t.startswith('R:ok:') else t
+        mt, it = [strip(t) for t in mt], [strip(t) for t in it]
     if len(mt) != len(it):
         # the model stops nothing early; an implementation ABORT/TIMEOUT replaces the line
         if i in ('ABORT', 'TIMEOUT'):
